@@ -42,6 +42,13 @@ class Prop(common.PropertyCheck):
                    'gain': [rng.choice([None, '2', '0.5']) for _ in range(D)], 'm': [rng.uniform(0.85, 1.25) for _ in range(D)], 'b': [rng.uniform(0, 7) for _ in range(D)],
                    'rfi_ch': ['one', 'subset', 'subset'][i % 3], 'mef_ch': 'subset', 'override': False, 'sc_all': False, 'seed': rng.randrange(1 << 30),
                    'sc_kind': 'lambda', 'nozero': False, 'nolimit': [], 'negpos': True}
+        # a channel listed twice in one conversion request (converted twice: events and limits alike)
+        for i in range(self.budget(16, 150)):
+            D = rng.randrange(2, 5)
+            yield {'D': D, 'res': [rng.choice([256, 1024, 4096]) for _ in range(D)], 'pne': [rng.choice(['4,1', '3,1', '4,0.1', '0,0', '2,0.5']) for _ in range(D)],
+                   'gain': [rng.choice([None, '2', '0.5']) for _ in range(D)], 'm': [rng.uniform(0.85, 1.25) for _ in range(D)], 'b': [rng.uniform(0, 7) for _ in range(D)],
+                   'rfi_ch': 'subset', 'mef_ch': 'subset', 'override': False, 'sc_all': False, 'seed': rng.randrange(1 << 30),
+                   'sc_kind': 'lambda', 'nozero': False, 'nolimit': [], 'listed_twice': True}
         # event counts one above a multiple of 2**16, the last event saturated (block-wise conversions)
         for i, n in enumerate([65537, 131073][:self.budget(1, 2)]):
             yield {'D': 2, 'res': [1024, 4096], 'pne': ['4,1', '0,0'], 'gain': [None, '2'], 'm': [1.05, 0.95], 'b': [2.0, 3.0], 'rfi_ch': 'all', 'mef_ch': 'all',
@@ -130,6 +137,8 @@ class Prop(common.PropertyCheck):
         try:
             # --- to_rfi
             ch1 = pick(case['rfi_ch'], neg=bool(case.get('negpos')))
+            if case.get('listed_twice') and ch1:
+                ch1 = ch1 + [ch1[0] if isinstance(ch1[0], int) else names.index(ch1[0])]       # the first channel once more, by position
             kw = {}
             if case['override'] and ch1 is not None:
                 kw = {'amplification_type': [r.choice([(4, 1), (0, 0), (3, 1), None]) for _ in ch1],
